@@ -72,3 +72,58 @@ Example C10_nonvacuous :
   let '(d, s) := append_logic_xor 4%nat 6%nat 7%nat s0 in
   satb (rows s) (wval s) = true /\ val (wval s d) = Z.lxor (1001 mod 256) 202.
 Proof. vm_compute. split; reflexivity. Qed.
+
+(* completeness: honest accumulators, products and output quads satisfy every logic row; with the
+   (honest, C11_split_complete) truncation bindings the whole block is satisfied *)
+From PlonkV Require Import Composer.TruncFacts Composer.LogicComplete.
+Theorem C10_logic_rows_complete : forall (PR : PrimeR) is_xor (asg : assignment) ps qs a b d base A B D,
+  length ps = length qs ->
+  Forall (fun p => 0 <= p < 4)%Z ps -> Forall (fun q => 0 <= q < 4)%Z qs ->
+  asg a = F A -> asg b = F B -> asg d = F D ->
+  (forall t x, nth_error (accs is_xor ps qs A B D) t = Some x ->
+     let '(At, Bt, Ct, Dt) := x in
+     asg (base + 4 * t)%nat = F At /\ asg (base + 4 * t + 1)%nat = F Bt /\
+     asg (base + 4 * t + 2)%nat = F Ct /\ asg (base + 4 * t + 3)%nat = F Dt) ->
+  let n := length ps in
+  let '(la, ra, dd) := logic_last a b d base n in
+  block_sat (logic_rows is_xor a b d base n ++ [(plain_gate la ra dd, None)]) asg.
+Proof. exact @logic_rows_complete. Qed.
+Check C10_logic_rows_complete : forall (PR : PrimeR) is_xor (asg : assignment) ps qs a b d base A B D,
+  length ps = length qs ->
+  Forall (fun p => 0 <= p < 4)%Z ps -> Forall (fun q => 0 <= q < 4)%Z qs ->
+  asg a = F A -> asg b = F B -> asg d = F D ->
+  (forall t x, nth_error (accs is_xor ps qs A B D) t = Some x ->
+     let '(At, Bt, Ct, Dt) := x in
+     asg (base + 4 * t)%nat = F At /\ asg (base + 4 * t + 1)%nat = F Bt /\
+     asg (base + 4 * t + 2)%nat = F Ct /\ asg (base + 4 * t + 3)%nat = F Dt) ->
+  let n := length ps in
+  let '(la, ra, dd) := logic_last a b d base n in
+  block_sat (logic_rows is_xor a b d base n ++ [(plain_gate la ra dd, None)]) asg.
+Print Assumptions C10_logic_rows_complete.
+
+Theorem C10_logic_complete : forall (PR : PrimeR) is_xor (asg : assignment) P a b base ps qs,
+  (1 <= P)%nat -> length ps = P -> length qs = P ->
+  Forall (fun p => 0 <= p < 4)%Z ps -> Forall (fun q => 0 <= q < 4)%Z qs ->
+  asg W_ZERO = fzero ->
+  (forall t x, nth_error (accs is_xor ps qs 0 0 0) t = Some x ->
+     let '(At, Bt, Ct, Dt) := x in
+     asg (base + 4 * t)%nat = F At /\ asg (base + 4 * t + 1)%nat = F Bt /\
+     asg (base + 4 * t + 2)%nat = F Ct /\ asg (base + 4 * t + 3)%nat = F Dt) ->
+  let '(la, ra, d) := logic_last W_ZERO W_ZERO W_ZERO base P in
+  block_sat (split_blk a la (2 * P) (base + 4 * P)) asg ->
+  block_sat (split_blk b ra (2 * P) (base + 4 * P + split_nw (2 * P))) asg ->
+  block_sat (logic_blk is_xor P a b base) asg.
+Proof. exact @logic_complete. Qed.
+Check C10_logic_complete : forall (PR : PrimeR) is_xor (asg : assignment) P a b base ps qs,
+  (1 <= P)%nat -> length ps = P -> length qs = P ->
+  Forall (fun p => 0 <= p < 4)%Z ps -> Forall (fun q => 0 <= q < 4)%Z qs ->
+  asg W_ZERO = fzero ->
+  (forall t x, nth_error (accs is_xor ps qs 0 0 0) t = Some x ->
+     let '(At, Bt, Ct, Dt) := x in
+     asg (base + 4 * t)%nat = F At /\ asg (base + 4 * t + 1)%nat = F Bt /\
+     asg (base + 4 * t + 2)%nat = F Ct /\ asg (base + 4 * t + 3)%nat = F Dt) ->
+  let '(la, ra, d) := logic_last W_ZERO W_ZERO W_ZERO base P in
+  block_sat (split_blk a la (2 * P) (base + 4 * P)) asg ->
+  block_sat (split_blk b ra (2 * P) (base + 4 * P + split_nw (2 * P))) asg ->
+  block_sat (logic_blk is_xor P a b base) asg.
+Print Assumptions C10_logic_complete.
